@@ -49,6 +49,12 @@ def gen_cases(ctx, tier):
     import corpus
     rng = ctx.rng
     cases = list(WITNESS)
+    # nesting deeper than the 80-column indent string: get_indent is capped (rsass f9a5d45)
+    for depth in (39, 40, 41, 45):
+        tree = [["r", [["a", "a"]], [["p", "x", ["y", "y"]], ["c", " c\n * d "]]]]
+        for _ in range(depth):
+            tree = [["m", ["n", "print"], tree]]
+        cases.append({"kind": "tree", "tree": tree, "src": T.tree_css(tree)})
     ntree = 400 if tier == "quick" else 4000
     for i in range(ntree):
         tree = T.gen_tree(rng, maxtop=rng.choice([1, 2, 3, 5]), depth=3)
